@@ -29,6 +29,12 @@ pub struct Cell {
     pub target_stderr: bool,
     pub tty_only: bool,
     pub pat: Pat,
+    /// the child also builds (afterwards) an unrestricted appender for the other stream and logs through it too
+    #[serde(default)]
+    pub also_other: bool,
+    /// how many times the five records are logged (shared-pipe stress)
+    #[serde(default)]
+    pub repeat: usize,
 }
 
 fn records() -> Vec<Rec> {
@@ -45,9 +51,28 @@ pub fn child_main(args: &[String]) -> i32 {
         .tty_only(cell.tty_only)
         .encoder(Box::new(PatternEncoder::new(&print(&cell.pat, false))))
         .build();
-    for r in records() {
-        if with_rec(&r, |rec| app.append(rec)).is_err() {
-            return 3;
+    let other = if cell.also_other {
+        Some(
+            ConsoleAppender::builder()
+                .target(if cell.target_stderr { Target::Stdout } else { Target::Stderr })
+                .encoder(Box::new(PatternEncoder::new(&print(&cell.pat, false))))
+                .build(),
+        )
+    } else {
+        None
+    };
+    for _ in 0..cell.repeat.max(1) {
+        for r in records() {
+            if with_rec(&r, |rec| app.append(rec)).is_err() {
+                return 3;
+            }
+        }
+    }
+    if let Some(o) = other {
+        for r in records() {
+            if with_rec(&r, |rec| o.append(rec)).is_err() {
+                return 3;
+            }
         }
     }
     0
@@ -268,9 +293,25 @@ pub fn check_cell(tmp: &Path, cell: &Cell, obs: &mut Obs) -> CaseResult {
     ensure!(run.code == Some(0), "C18:child-failed", "child exited with {:?}; stderr {:?}", run.code, String::from_utf8_lossy(&run.stderr));
     let (target_bytes, other_bytes, target_tty) = if cell.target_stderr { (&run.stderr, &run.stdout, cell.stderr_tty) } else { (&run.stdout, &run.stderr, cell.stdout_tty) };
     let cls = format!("{}:{}", env_class(cell), if target_tty { "tty" } else { "pipe" });
-    ensure!(other_bytes.is_empty(), "C18:wrong-stream", "{} bytes appeared on the stream that is not the target: {:?}", other_bytes.len(), String::from_utf8_lossy(other_bytes));
     let env = Env { thread_name: "main".into(), debug_build: cfg!(debug_assertions), now_secs: 0 };
     let expected: String = records().iter().map(|r| render(&cell.pat, r, &env)).collect();
+    if cell.also_other {
+        // the second appender (unrestricted) owns the other stream: its colour decision follows ITS stream
+        let other_tty = if cell.target_stderr { cell.stdout_tty } else { cell.stderr_tty };
+        let (text, seqs) = strip_sgr(other_bytes).map_err(|e| Failure { sig: "C18:malformed-escape".into(), msg: format!("{} in {:?}", e, String::from_utf8_lossy(other_bytes)) })?;
+        ensure!(text == expected.as_bytes(), "C18:text-differs", "second appender (other stream, terminal={}): {:?}, expected {:?}", other_tty, String::from_utf8_lossy(&text), expected);
+        let (e1, e2) = (colour_enabled(cell, other_tty, false), colour_enabled(cell, other_tty, true));
+        if e1 == e2 {
+            if !e1 {
+                ensure!(seqs.is_empty(), format!("C18:escapes-when-disabled:second-appender:{}", if other_tty { "tty" } else { "pipe" }), "a process with appenders on both streams: the appender on the {} stream wrote {} escape sequence(s) although colour is disabled there", if other_tty { "terminal" } else { "non-terminal" }, seqs.len());
+            } else if has_highlight(&cell.pat) {
+                ensure!(!seqs.is_empty(), format!("C18:no-escapes-when-enabled:second-appender:{}", if other_tty { "tty" } else { "pipe" }), "a process with appenders on both streams: the appender on the terminal stream wrote no escape sequence");
+            }
+        }
+        obs.class("appenders-on-both-streams");
+    } else {
+        ensure!(other_bytes.is_empty(), "C18:wrong-stream", "{} bytes appeared on the stream that is not the target: {:?}", other_bytes.len(), String::from_utf8_lossy(other_bytes));
+    }
     let should_write = !cell.tty_only || target_tty;
     if !should_write {
         ensure!(
@@ -372,7 +413,7 @@ fn cell_at(idx: usize, pat: Pat) -> Cell {
     let tg = i % 2;
     i /= 2;
     let to = i % 2;
-    Cell { no_color: v(nc), clicolor: v(cc), clicolor_force: v(cf), stdout_tty: so == 1, stderr_tty: se == 1, target_stderr: tg == 1, tty_only: to == 1, pat }
+    Cell { no_color: v(nc), clicolor: v(cc), clicolor_force: v(cf), stdout_tty: so == 1, stderr_tty: se == 1, target_stderr: tg == 1, tty_only: to == 1, pat, also_other: false, repeat: 1 }
 }
 
 pub const CELLS: usize = 27 * 2 * 2 * 2 * 2;
@@ -492,8 +533,65 @@ pub fn check_interleave(c: &Interleave, obs: &mut Obs) -> CaseResult {
     Ok(())
 }
 
+/// Several processes write highlighted records to ONE pipe at the same time: whatever the interleaving of
+/// their write calls, every escape sequence in the combined stream must be well-formed (one style request =
+/// one sequence that is not torn apart).
+#[derive(Serialize, Deserialize, Debug, Clone)]
+pub struct Shared {
+    pub children: usize,
+    pub repeat: usize,
+}
+
+pub fn check_shared(tmp: &Path, c: &Shared, obs: &mut Obs) -> CaseResult {
+    let exe = std::env::current_exe().map_err(|e| Failure { sig: "C18:harness".into(), msg: e.to_string() })?;
+    let dir = scratch(tmp, "c18s");
+    let pat = vec![
+        Node::Fmt { kind: Kind::Highlight(vec![Node::Fmt { kind: Kind::Message, long: false, spec: None }]), long: false, spec: None },
+        Node::Fmt { kind: Kind::Newline, long: false, spec: None },
+    ];
+    let cell = Cell { no_color: None, clicolor: None, clicolor_force: Some("1".into()), stdout_tty: false, stderr_tty: false, target_stderr: true, tty_only: false, pat, also_other: false, repeat: c.repeat };
+    let file = dir.join("cell.json");
+    std::fs::write(&file, serde_json::to_string(&cell).unwrap()).unwrap();
+    let mut fds = [0 as libc::c_int; 2];
+    if unsafe { libc::pipe(fds.as_mut_ptr()) } != 0 {
+        eprintln!("[lv] pipe() failed: infrastructure trouble");
+        std::process::exit(2);
+    }
+    let reader = drain(fds[0]);
+    let mut kids = vec![];
+    for _ in 0..c.children {
+        let w = unsafe { libc::dup(fds[1]) };
+        let mut cmd = Command::new(&exe);
+        cmd.arg("child").arg("c18").arg(&file).stdin(Stdio::null()).stdout(Stdio::null()).stderr(unsafe { Stdio::from_raw_fd(w) });
+        for k in ["NO_COLOR", "CLICOLOR"] {
+            cmd.env_remove(k);
+        }
+        cmd.env("CLICOLOR_FORCE", "1");
+        kids.push(cmd.spawn().map_err(|e| Failure { sig: "C18:harness".into(), msg: e.to_string() })?);
+        drop(cmd);
+    }
+    unsafe { libc::close(fds[1]) };
+    for mut k in kids {
+        let st = k.wait().map_err(|e| Failure { sig: "C18:harness".into(), msg: e.to_string() })?;
+        ensure!(st.code() == Some(0), "C18:child-failed", "child exited with {:?}", st.code());
+    }
+    let bytes = reader.join().unwrap_or_default();
+    let _ = std::fs::remove_dir_all(&dir);
+    let (text, seqs) = strip_sgr(&bytes).map_err(|e| Failure { sig: "C18:torn-escape".into(), msg: format!("{} processes sharing one pipe: {} (around {:?})", c.children, e, String::from_utf8_lossy(&bytes[..bytes.len().min(120)])) })?;
+    let want_lines = c.children * c.repeat.max(1) * 5;
+    let lines = text.iter().filter(|b| **b == b'\n').count();
+    ensure!(lines == want_lines, "C18:text-differs", "{} lines arrived, {} were written", lines, want_lines);
+    obs.sub_evals += seqs.len() as u64;
+    obs.nontrivial = true;
+    Ok(())
+}
+
 pub fn run(run: &Run) {
     let tmp = run.tmp.clone();
+    if run.worker.0 == 0 {
+        let t9 = tmp.clone();
+        run.eval_one("shared-pipe", &Shared { children: 3, repeat: run.tier.pick(600, 6000) }, &move |c: &Shared, o: &mut Obs| check_shared(&t9, c, o));
+    }
     let t1 = tmp.clone();
     run.run_replays::<Cell>("matrix", &move |c: &Cell, o: &mut Obs| check_cell(&t1, c, o));
     run.run_replays::<StyleCase>("styles", &check_style);
@@ -513,7 +611,10 @@ pub fn run(run: &Run) {
             }
             let pat = cell_pattern().new_tree(&mut runner).map(|t| t.current()).unwrap_or_default();
             let t2 = tmp.clone();
-            if !run.eval_one("matrix", &cell_at(idx, pat), &move |c: &Cell, o: &mut Obs| check_cell(&t2, c, o)) {
+            let mut cell = cell_at(idx, pat);
+            // every second pass: the process owns appenders on both streams
+            cell.also_other = pass % 2 == 1;
+            if !run.eval_one("matrix", &cell, &move |c: &Cell, o: &mut Obs| check_cell(&t2, c, o)) {
                 ok = false;
                 break 'outer;
             }
@@ -563,6 +664,13 @@ pub fn replay(part: &str, case: serde_json::Value) -> Option<CaseResult> {
         }
         "styles" | "style-pairs" => Some(check_style(&serde_json::from_value(case).ok()?, &mut Obs::default())),
         "interleave" => Some(check_interleave(&serde_json::from_value(case).ok()?, &mut Obs::default())),
+        "shared-pipe" => {
+            let tmp = std::env::temp_dir().join(format!("lv-replay-{}", std::process::id()));
+            std::fs::create_dir_all(&tmp).ok()?;
+            let r = check_shared(&tmp, &serde_json::from_value(case).ok()?, &mut Obs::default());
+            let _ = std::fs::remove_dir_all(&tmp);
+            Some(r)
+        }
         _ => None,
     }
 }
